@@ -484,6 +484,99 @@ def unordered_loops(mod: Mod, known_sets=(), param_sets=None):
     return out
 
 
+def order_tainted_iterations(model, mods, modsets=None, paramsets=None):
+    """Mappings whose KEY ORDER is the iteration order of an unordered collection, and the places that iterate them.
+
+    A function that fills a dict by keyed stores inside a loop over a set (and returns it) hands back a mapping whose key order depends on
+    the interpreter's hash seed; so does a function that returns the result of calling one.  Attributes and locals bound to such a result -
+    and their sub-mappings, when the builder recurses - are order-tainted: iterating them (directly or through .items()/.keys()/.values())
+    visits the keys in hash order.  Returns [(module name, mod, qualname, node, description)] for every For loop / comprehension over one."""
+    modsets, paramsets = modsets or {}, paramsets or {}
+    by_simple = {}
+    for mname, mod in mods:
+        for q, f in mod.funcs.items():
+            by_simple.setdefault(q.split(".")[-1], []).append((mname, q, f))
+    builders = {}           # simple name -> description
+    for mname, mod in mods:
+        psets = {q_: v for (m_, q_), v in paramsets.items() if m_ == mname}
+        for q, loop, desc in unordered_loops(mod, modsets.get(mname, ()), psets):
+            f = mod.funcs[q]
+            keyed = {st.targets[0].value.id for st in ast.walk(loop) if isinstance(st, ast.Assign) and len(st.targets) == 1 and isinstance(st.targets[0], ast.Subscript)
+                     and isinstance(st.targets[0].value, ast.Name)}
+            returned = {r.value.id for r in ast.walk(f) if isinstance(r, ast.Return) and isinstance(r.value, ast.Name)}
+            if keyed & returned:
+                builders[q.split(".")[-1]] = f"{mname}:{q} fills it in the iteration order of {desc}"
+    changed = True
+    while changed:          # functions that return the result of a builder
+        changed = False
+        for mname, mod in mods:
+            for q, f in mod.funcs.items():
+                simple = q.split(".")[-1]
+                if simple in builders:
+                    continue
+                local = {st.targets[0].id for st in ast.walk(f) if isinstance(st, ast.Assign) and len(st.targets) == 1 and isinstance(st.targets[0], ast.Name)
+                         and isinstance(st.value, ast.Call) and (dotted_name(st.value.func) or "").split(".")[-1] in builders}
+                for r in ast.walk(f):
+                    if isinstance(r, ast.Return) and r.value is not None and ((isinstance(r.value, ast.Call) and (dotted_name(r.value.func) or "").split(".")[-1] in builders)
+                                                                              or (isinstance(r.value, ast.Name) and r.value.id in local)):
+                        builders[simple] = builders[(dotted_name(r.value.func) or "").split(".")[-1]] if isinstance(r.value, ast.Call) else next(iter(builders.values()))
+                        changed = True
+                        break
+    if not builders:
+        return []
+    is_builder_call = lambda v: isinstance(v, ast.Call) and (dotted_name(v.func) or "").split(".")[-1] in builders
+    tainted_attrs = {}      # (module, class) -> {attr: why}
+    for mname, mod in mods:
+        for q, f in mod.funcs.items():
+            if "." not in q:
+                continue
+            cls = q.rsplit(".", 1)[0]
+            for st in ast.walk(f):
+                if isinstance(st, ast.Assign) and len(st.targets) == 1 and isinstance(st.targets[0], ast.Attribute) and isinstance(st.targets[0].value, ast.Name) \
+                        and st.targets[0].value.id == "self" and is_builder_call(st.value):
+                    tainted_attrs.setdefault((mname, cls), {})[st.targets[0].attr] = builders[(dotted_name(st.value.func) or "").split(".")[-1]]
+    out = []
+    for mname, mod in mods:
+        for q, f in mod.funcs.items():
+            cls = q.rsplit(".", 1)[0] if "." in q else None
+            attrs = tainted_attrs.get((mname, cls), {})
+            local = {}
+
+            def root_why(e):
+                """why the mapping denoted by e (a chain of subscripts / .get() on a tainted attribute or local) is order-tainted, else None"""
+                while True:
+                    if isinstance(e, ast.Subscript):
+                        e = e.value
+                    elif isinstance(e, ast.Call) and isinstance(e.func, ast.Attribute) and e.func.attr == "get":
+                        e = e.func.value
+                    else:
+                        break
+                if isinstance(e, ast.Attribute) and isinstance(e.value, ast.Name) and e.value.id == "self" and e.attr in attrs:
+                    return attrs[e.attr]
+                if isinstance(e, ast.Name) and e.id in local:
+                    return local[e.id]
+                if is_builder_call(e):
+                    return builders[(dotted_name(e.func) or "").split(".")[-1]]
+                return None
+            stmts = sorted([st for st in ast.walk(f) if isinstance(st, ast.Assign)], key=lambda st: (st.lineno, st.col_offset))
+            for st in stmts:
+                if len(st.targets) == 1 and isinstance(st.targets[0], ast.Name):
+                    why = root_why(st.value)
+                    if why:
+                        local[st.targets[0].id] = why
+                    else:
+                        local.pop(st.targets[0].id, None)
+            for n in ast.walk(f):
+                if isinstance(n, (ast.For, ast.comprehension)):
+                    it = n.iter
+                    if isinstance(it, ast.Call) and isinstance(it.func, ast.Attribute) and it.func.attr in ("items", "keys", "values") and not it.args:
+                        it = it.func.value
+                    why = root_why(it)
+                    if why and not (q.split(".")[-1] in builders):
+                        out.append((mname, mod, q, n, f"{src(n.iter)[:50]} ({why})"))
+    return out
+
+
 ORDER_INSENSITIVE_CONSUMERS = {"set", "frozenset", "sorted", "any", "all", "min", "max", "len", "dict", "collections.Counter", "Counter"}
 
 
@@ -596,7 +689,35 @@ def ordered_containers(fd) -> set:
     return out
 
 
-def commutative_body(loop: ast.For, fd=None):
+IO_CALLS = {"open", "save_x_tv", "save_x_tp", "save_to_output", "to_csv", "to_string", "savetxt", "savefig", "dump", "print", "echo", "write", "writelines"}
+
+
+def io_reaching_functions(mods):
+    """simple names of the package's functions that (transitively, through calls resolved by simple name) write files or print:
+    the order in which such calls are made is observable (which file is written last, the order of the output)"""
+    calls = {}
+    direct = set()
+    for mname, mod in mods:
+        for q, f in mod.funcs.items():
+            simple = q.split(".")[-1]
+            for c in ast.walk(f):
+                if isinstance(c, ast.Call):
+                    nm = (dotted_name(c.func) or (c.func.attr if isinstance(c.func, ast.Attribute) else "")).split(".")[-1]
+                    calls.setdefault(simple, set()).add(nm)
+                    if nm in IO_CALLS:
+                        direct.add(simple)
+    reach = set(direct)
+    changed = True
+    while changed:
+        changed = False
+        for fn_, cs in calls.items():
+            if fn_ not in reach and cs & reach:
+                reach.add(fn_)
+                changed = True
+    return reach
+
+
+def commutative_body(loop: ast.For, fd=None, effectful=()):
     """body consists only of keyed stores X[.. loop vars ..] = value (value not reading X) into containers whose order is not
     observable, per-iteration locals and `continue`-guards; returns (ok, reason)"""
     loop_vars = {n.id for n in ast.walk(loop.target) if isinstance(n, ast.Name)}
@@ -622,6 +743,9 @@ def commutative_body(loop: ast.For, fd=None):
                 return True, ""
             if name.split(".")[-1] in ("append", "extend", "insert", "write", "writelines", "appendleft"):
                 return False, f"order-recording call {name}()"
+            last = name.split(".")[-1] or (st.value.func.attr if isinstance(st.value.func, ast.Attribute) else "")
+            if effectful and (last in effectful or last in IO_CALLS):
+                return False, f"call {src(st.value.func)[:50]}() writes files or prints: the order of these calls is observable"
             return True, ""
         if isinstance(st, ast.If):
             for s in st.body + st.orelse:
